@@ -101,7 +101,6 @@ new.append(entry("C04",
         "uhppote.(*uhppote).udpSendTo": "helper verified inlined into sendto$1",
         "uhppote.(*uhppote).udpBroadcastTo": "helper verified inlined into sendto$1",
         "uhppote.(*uhppote).udpBroadcast": "helper of GetDevices (see there)",
-        "uhppote.(*ut0311).Listen": "goroutines and channels: outside the sequential subset",
         "types.(HHmm).before": "helper with a documented panic for foreign types: verified inlined into HHmm.Before (C16), whose callers pass time.Time or HHmm",
         "types.(HHmm).after": "as before",
         "types.(TaskType).String": "string table indexed by a request-only enum: values come from the library's own parsers (1..13); not a value any operation returns",
@@ -232,15 +231,15 @@ new.append(entry("C09", level="other",
 
 
 new.append(entry("C10", level="other",
-    functions=["uhppote.(*uhppote).listen$1", "uhppote.(*uhppote).listen", "uhppote.(*uhppote).Listen$1", "uhppote.(*uhppote).Listen$2", "uhppote.(*ut0311).Listen$2", "messages.lemmaDecodeEvent", "messages.lemmaDecodeEventV6_62", "messages.lemmaDecodeGetStatusResponse"],
-    scope=[r"^uhppote\.\(\*uhppote\)\.listen", r"^uhppote\.\(\*uhppote\)\.Listen\$[12]#", r"^uhppote\.\(\*ut0311\)\.Listen\$2#", r"^messages\.lemmaDecode(Event|EventV6_62|GetStatusResponse)#"],
+    functions=["uhppote.(*uhppote).listen$1", "uhppote.(*uhppote).listen", "uhppote.(*uhppote).Listen$1", "uhppote.(*uhppote).Listen$2", "uhppote.(*ut0311).Listen", "uhppote.(*ut0311).Listen$1", "uhppote.(*ut0311).Listen$2", "messages.lemmaDecodeEvent", "messages.lemmaDecodeEventV6_62", "messages.lemmaDecodeGetStatusResponse"],
+    scope=[r"^uhppote\.\(\*uhppote\)\.listen", r"^uhppote\.\(\*uhppote\)\.Listen\$[12]#", r"^uhppote\.\(\*ut0311\)\.Listen(\$[12])?#", r"^messages\.lemmaDecode(Event|EventV6_62|GetStatusResponse)#"],
     pinned_file="pins_uhppote.json", pinned_labels=["contract", "macro"],
     assumptions=COMMON_ASSUME + ["Listener callbacks are counted by ghost counters (interface contracts Listener.OnError / OnEvent / OnConnected); a channel send is a ghost event of the function (chansends / chansent)",
-                                 "driver.Listen starts the receive loop and returns (interface contract without obligations)"],
-    not_decided=["exactly-once / in-order delivery ACROSS the two goroutines and the unbuffered channel, shutdown ordering, re-binding immediately: statements about interleavings",
-                 "that a delivered status 'does not change afterwards' is decided only as: its door maps are allocated per event (fresh); the status struct itself is a local of the loop body",
-                 "ut0311.Listen (receive loop with goroutines)"],
-    explanation="Decided per datagram: the receive handler (closure listen$1) produces for EVERY byte string exactly one of - one send of a freshly decoded event on the pipe, and then the datagram was 64 bytes, protocol id 0x17 or 0x19, function code 0x20, non-zero serial number, boolean bytes 0/1, and every field of the event is the protocol decoding of the datagram - or exactly one OnError callback and no send; it never calls OnEvent/OnConnected. the dispatch goroutine (closure Listen$2) calls OnEvent exactly once per event received from the pipe, with a status whose every field is the mapping of that event (precondition of the Listener.OnEvent contract, checked at the single call site; event present iff index != 0; system date and time combined by the verified closure Listen$1) and never calls OnError/OnConnected; listen() calls OnConnected exactly once, after driver.Listen returned nil, and returns nil; on a driver error it returns the error without OnConnected. Level 'other': the cross-goroutine clauses cannot be expressed as function contracts."))
+                                 "driver.Listen starts the receive loop and returns (interface contract without obligations); its implementation ut0311.Listen is verified against its own contract",
+                                 "closing a channel is a ghost event of the function (chancloses); socket events as for C09"],
+    not_decided=["exactly-once / in-order delivery ACROSS the two goroutines and the unbuffered channel, the ORDER of shutdown events between goroutines, re-binding immediately: statements about interleavings. Decided instead, per function: the stop protocol's events - listen() closes the signal channel exactly once and only after OnConnected; the signal waiter closes the socket exactly once; the receive loop closes `done` exactly once when it ends",
+                 "that a delivered status 'does not change afterwards' is decided only as: its door maps are allocated per event (fresh); the status struct itself is a local of the loop body"],
+    explanation="Decided per datagram: the receive handler (closure listen$1) produces for EVERY byte string exactly one of - one send of a freshly decoded event on the pipe, and then the datagram was 64 bytes, protocol id 0x17 or 0x19, function code 0x20, non-zero serial number, boolean bytes 0/1, and every field of the event is the protocol decoding of the datagram - or exactly one OnError callback and no send; it never calls OnEvent/OnConnected. the dispatch goroutine (closure Listen$2) calls OnEvent exactly once per event received from the pipe, with a status whose every field is the mapping of that event (precondition of the Listener.OnEvent contract, checked at the single call site; event present iff index != 0; system date and time combined by the verified closure Listen$1) and never calls OnError/OnConnected; listen() calls OnConnected exactly once, after driver.Listen returned nil, and returns nil; on a driver error it returns the error without OnConnected. The driver's Listen (ut0311.Listen) refuses port 0, opens exactly one UDP socket bound to the listen address and starts exactly two goroutines, nothing on failure; the signal waiter closes that socket exactly once; the receive loop reads into one buffer that can hold an over-length datagram, hands every datagram read without error to the handler and closes `done` exactly once when it ends. Level 'other': the cross-goroutine clauses cannot be expressed as function contracts."))
 
 
 new.append(entry("C11", level="other",
